@@ -99,7 +99,7 @@ def r1_once(c, facts):
         start = arms[0] if arms else pt['target']
         for label, suffix in must.items():
             # the edge may be added once after the two arms have joined (`let m = match deps.get(..) {..}; add_edge(m, n)`)
-            sites = [b for b, t in P.call_blocks(fn, suffix) if fn.dominates(none_t, b) or (label == 'graph.add_edge' and b in loops)]
+            sites = [b for b, t in P.call_blocks(fn, *((suffix, 'update_edge') if label == 'graph.add_edge' else (suffix,))) if fn.dominates(none_t, b) or (label == 'graph.add_edge' and b in loops)]
             if not sites:
                 c.bad(R, 'unseen-arm-missing:' + label, 'the not-yet-seen arm no longer calls %s' % label)
                 continue
@@ -120,7 +120,7 @@ def r2_edge_agree(c, facts):
     R = c.rule('C10.R2', 'EDGE-AGREE: every dependency edge is oriented import -> importer')
     fn = c.anchor(R, L)
     idx = MF.defs_index(fn)
-    edges = P.call_blocks(fn, 'add_edge')
+    edges = P.call_blocks(fn, 'add_edge', 'update_edge')      # update_edge: the same edge, added once
     c.floor(R, 'graph.add_edge sites', len(edges), 1)
     for n, (b, t) in enumerate(edges):
         # a node index is the result of deps.get / graph.add_node (the import) or of the work-list pop (the importer):
@@ -156,6 +156,10 @@ def r2_edge_agree(c, facts):
         if gn and gn <= {'next', 'next_back', 'pop', 'get', 'get_mut', 'contains_key', 'entry', 'branch', 'is_valid', 'is_some', 'is_none'}:
             continue
         if not gn:
+            # a comparison in place (`if m != n`)
+            cmpops = [st['rv']['op'] for st in blk['stmts'] if st['s'] == 'assign' and st['place']['l'] == sw['discr']['l'] and st['rv']['r'] == 'binop' and st['rv']['op'] in ('Eq', 'Ne', 'Lt', 'Le', 'Gt', 'Ge')]
+            if cmpops:
+                extra |= {'a comparison (%s)' % cmpops[0]}
             continue
         extra |= gn
     if extra:
@@ -512,6 +516,29 @@ def r7_locators(c, facts):
         c.ok(R, {'locator_path': 'file: URL -> path with url::Url::to_file_path (percent-decoding, platform rules)'})
     else:
         c.bad(R, 'locator_path:not-to_file_path:%s' % ','.join(raw), 'locator_path no longer converts the URL with Url::to_file_path (uses %s): a path with a space, a non-ASCII letter, `#` or `%%` names another file than the one written in the program or on the command line' % (raw or sorted(rnames)))
+    # the root of every resolution - the locator of the configuration file - is a path without `.` / `..` segments or
+    # symbolic links: Url::join removes dot segments textually, so `../x` below a root `/a/b/../c/` leaves the tree the
+    # user meant, and the same file reached absolutely and relatively gets two locators
+    pl = facts.fn('oal_client::config::path_locator')
+    if pl is None:
+        # inlined into its caller: the function of the configuration module that builds a URL from a path
+        cands = [f for f in facts.fns.values() if f.mir and f.qname.startswith('oal_client::config::') and any(P.strip((callee_of(t) or {}).get('def', '')).endswith('Url::from_file_path') for b, t in f.calls())]
+        pl = cands[0] if cands else None
+    if pl is not None and pl.mir:
+        pl = facts.normalised(pl)
+        pidx = MF.defs_index(pl)
+        conv = [(b, t) for b, t in pl.calls() if P.strip((callee_of(t) or {}).get('def', '')).endswith('Url::from_file_path')]
+        if conv:
+            sl = MF.slice_back(pl, conv[0][1]['args'][0]['l'], pidx) if 'l' in conv[0][1]['args'][0] else {'calls': []}
+            pn = {P.strip(x).split('::')[-1] for x, _, _ in sl['calls']}
+            if 'canonicalize' in pn:
+                c.ok(R, {'path_locator': 'the configuration path is canonicalised before it becomes the root locator'})
+            else:
+                c.bad(R, 'path_locator:root-not-canonical:%s' % ','.join(sorted(pn - {'branch', 'from_residual', 'as_ref', 'deref'})), 'path_locator no longer canonicalises the configuration path (uses %s): a root with `..` or a symbolic link in it makes imports that climb out of the directory resolve to the wrong file, and one file reached two ways two modules' % sorted(pn - {'branch', 'from_residual'}))
+        else:
+            c.bad(R, 'path_locator:from_file_path-not-found', 'path_locator no longer builds the root locator with Url::from_file_path')
+    else:
+        c.bad(R, 'anchor-missing:oal_client::config::path_locator', 'path_locator not found')
     n = 0
     for q, l in sorted(facts.by_qname.items()):
         if not re.search(r'as (oal_compiler::)?module::Loader<.*>::is_valid$', q):
@@ -607,6 +634,9 @@ def r10_locator_identity(c, facts):
 
 
 def run(c, facts):
+    import c08 as _c08
+    R11 = c.rule('C10.R11', 'IMPORTS-DECLARED: every `use` statement takes effect, whatever other statement names the same file under another spelling or qualifier (shared with C08.R15)')
+    c.shared(R11, _c08.r15_imports_declared, 'C08.R15', facts)
     c.run(r10_locator_identity, facts)
     c.run(r9_use_order, facts)
     c.run(r8_spelling, facts)
